@@ -1,7 +1,8 @@
 """Tier B for C12 (sequence inputs -> residue graph), C19 (dsDNA completion) and C20 (outputs only after success).
 
 Bounded stand-ins: executable readings of the three property statements evaluated on the REAL functions of the tree
-under verification (parsers on generated files, gen_seq writing JSON, complement_dsDNA on real MetaMolecules,
+under verification (parsers on generated files, gen_seq writing JSON, complement_dsDNA on real MetaMolecules, gen_params -dsdna
+read at the written .itp,
 gen_params / gen_coords / gen_seq with an exception injected at every stage boundary) over an exhaustively
 enumerated small space.  The oracles below (`spec_*`) are written out from the statements in properties.jsonl and
 from the documented input formats, never by calling the code under test.  Never counted as proved.
@@ -252,7 +253,7 @@ def c12_jobs(ctx, rng):
                     own_lines = (False, True) if (ctx.thorough or n < max_len) else (bool((si + mask) % 2),)
                     for own_line in own_lines:
                         jobs.append(("ig", kind, letters, mask, False, own_line, "title"))
-                        if n >= 3:
+                        if n >= 2:                   # a ring of two: the closing edge is the only edge
                             jobs.append(("ig", kind, letters, mask, True, own_line, "title"))
     # protein: every sequence of length <= 2 (thorough 3), every cyclic window of the alphabet up to max_len, seeded longer ones
     prot = []
@@ -270,8 +271,9 @@ def c12_jobs(ctx, rng):
         for mask in masks:
             jobs.append(("fasta", "PROTEIN", letters, mask, mask % 2))
             jobs.append(("ig", "PROTEIN", letters, mask, False, False, "title"))
-            if n >= 3:
-                jobs.append(("ig", "PROTEIN", letters, mask, True, bool(mask % 2), "title"))
+            # circular: terminator placement alternates with the line breaking; both placements for the ring of two
+            for own_line in ((False, True) if n == 2 else (bool(mask % 2),) if n > 2 else ()):
+                jobs.append(("ig", "PROTEIN", letters, mask, True, own_line, "title"))
     # probes inside the quantifier but outside the tables/format corner the enumeration above uses
     # (no probe with the letter U: the statement refers to polyply's one-letter tables, whose RNA table spells uracil T;
     #  demanding U would ask for more than the statement says -- triaged by the lead as an oracle error, not a defect)
@@ -575,13 +577,15 @@ def run_c12(ctx, res):
             letters[job[1]] |= set(job[2]) & set(SPEC_TABLES[job[1]])
     _collect(res, "c12-sequence-inputs", ((job, nt, bad, _c12_key(job, bad)) for job, (nt, bad) in zip(jobs, outs)))
     cover = ", ".join(f"{k} {len(letters[k])}/{len(SPEC_TABLES[k])}" for k in SPEC_TABLES)
+    n_ring2 = sum(1 for job in jobs if job[0] == "ig" and job[4] and len(job[2]) == 2)
     res.bound = (f"EXHAUSTIVE: -seq: every list of <= {4 if ctx.thorough else 3} blocks name:count over {len(TXT_NAMES)} names x counts 1..3; "
                  f".txt: every sequence of length 1..{max_len} over {len(TXT_NAMES)} arbitrary names x every line breaking x with/without final newline; "
                  f".fasta (two header forms) and .ig (terminator on the last sequence line and on its own line" + ("" if ctx.thorough else
-                 f", alternating at length {max_len}") + "; linear, and circular for length >= 3): every "
+                 f", alternating at length {max_len}") + "; linear, and circular for length >= 2 -- at length 2 the closing edge 1-2 is the only edge and must carry the circular label): every "
                  f"sequence of length 1..{max_len} over ACGT as DNA and as RNA x every line breaking; protein through .fasta/.ig: every sequence of length "
-                 f"<= {3 if ctx.thorough else 2}, every cyclic window of the 21-letter table of length 3..{max_len} x every line breaking (letters of the tables "
-                 f"exercised: {cover}); .json: every connected labelled graph on 1..4 nodes x 2 namings x resid given/absent x node order in the file, written "
+                 f"<= {3 if ctx.thorough else 2}, every cyclic window of the 21-letter table of length 3..{max_len} x every line breaking, linear and (length >= 2) "
+                 f"circular, the circular ring of two with both terminator placements (letters of the tables exercised: {cover}; circular .ig worlds of "
+                 f"length 2: {n_ring2}); .json: every connected labelled graph on 1..4 nodes x 2 namings x resid given/absent x node order in the file, written "
                  "by the real node_link_data; gen_seq: the 27 macros (levels 1..3 x branching 1..3 x three residue mixes with probability 1) alone, in every "
                  "one-block sequence x 4 terminal-renaming/label sets, every ordered pair of shapes x 3 residue combinations x connect records between "
                  "first/middle/last residues in BOTH index orders (plus two-edge records), every triple of shapes x 4 connect topologies (a record between "
@@ -596,7 +600,8 @@ def run_c12(ctx, res):
         "the circular edge label is linktype=circle, gen_seq block and in-block residue indices are 0-based, tree residues are numbered "
         "generation by generation, a terminus is a residue with exactly one neighbour in the final graph",
         "attributes build/backmap/seqid are bookkeeping and not compared; node keys are not compared, residues are identified by resid",
-        "not in the bound: circular .ig of length 1-2, the name of a single linear nucleotide (both ends at once), MacroFile (-from_file) macros",
+        "not in the bound: circular .ig of length 1 (a ring of one residue has no two ends to close; whether the statement wants a self-loop "
+        "is not defined, so no oracle is written for it), the name of a single linear nucleotide (both ends at once), MacroFile (-from_file) macros",
     ]
 
 
@@ -651,6 +656,23 @@ def c19_jobs(ctx):
                 for bad_name in ("ALA", "DX", "A", "DA53", "da"):
                     jobs.append(("unknown", "".join(letters), pos, bad_name))
     return jobs
+
+
+GP_ROUTES = ("seq", "fasta", "txt")
+
+
+def c19_route_jobs(ctx):
+    """the program path: gen_params(..., dsdna=True) with the shipped parmbsc1 library, the strand supplied through each input route
+    of the program; observed at the written .itp.  job = ("gen_params", route, letters)"""
+    strands = ["AT", "CGT", "GAATC"]                 # lengths 2, 3, 5; the last with a repeated base (-seq token DA:2)
+    routes = GP_ROUTES
+    if ctx.thorough:
+        routes = GP_ROUTES + ("ig",)
+        strands += ["CG", "GC", "TA", "AAA", "TCA", "GGC", "ACGT", "TTTT", "CCGGA", "ATGCATG", "CCGTTTAAG"]
+        rng = random.Random(ctx.seed)
+        for n in (6, 8, 11):
+            strands.append("".join(rng.choice("ACGT") for _ in range(n)))
+    return [("gen_params", route, letters) for letters in strands for route in routes]
 
 
 def _rle(names):
@@ -712,8 +734,75 @@ def _build_strand(form, letters, suffix, scratch):
     return mol, exp
 
 
+def read_itp_residue_graph(path):
+    """the residue graph an .itp file states: ((nodes {resid: {"resname": name}}, edges {(resid_i, resid_j): {}}), None) or (None, why not).
+    Residues from the [ atoms ] lines (nr type resnr residue ...), an edge for every [ bonds ] line between atoms of different residues."""
+    section, atom_res, nodes, edges = None, {}, {}, {}
+    with open(path) as handle:
+        for raw in handle:
+            line = raw.split(";")[0].strip()
+            if not line or line.startswith("#"):
+                continue
+            if line.startswith("["):
+                section = line.strip("[] \t")
+                continue
+            tokens = line.split()
+            if section == "atoms":
+                if len(tokens) < 4:
+                    return None, f"atoms line {raw!r} has fewer than 4 fields"
+                rid = int(tokens[2])
+                if nodes.setdefault(rid, {"resname": tokens[3]})["resname"] != tokens[3]:
+                    return None, f"residue {rid} is named both {nodes[rid]['resname']} and {tokens[3]}"
+                atom_res[int(tokens[0])] = rid
+            elif section == "bonds":
+                if int(tokens[0]) not in atom_res or int(tokens[1]) not in atom_res:
+                    return None, f"bond line {raw!r} names an atom that is not in the atoms section"
+                i, j = sorted((atom_res[int(tokens[0])], atom_res[int(tokens[1])]))
+                if i != j:
+                    edges[(i, j)] = {}
+    return (nodes, edges), None
+
+
+def c19_route_eval(job, scratch):
+    """gen_params -dsdna on one strand through one input route; the statement read at the written .itp (edge labels are not observable there)"""
+    gen_itp = load("polyply.src.gen_itp")
+    _, route, letters = job
+    n = len(letters)
+    names = _terminal_names(letters)
+    seq, seq_file = None, None
+    if route == "seq":
+        seq = _rle(names)
+        how = "-seq " + " ".join(seq)
+    elif route == "fasta":
+        seq_file = scratch / "strand.fasta"
+        seq_file.write_text(f">DNA {letters}\n{letters}\n")
+        how = f"-seqf strand.fasta ({letters})"
+    elif route == "ig":
+        seq_file = scratch / "strand.ig"
+        seq_file.write_text(f"; DNA\ntitle\n{letters}1\n")
+        how = f"-seqf strand.ig ({letters}1)"
+    else:
+        seq_file = scratch / "strand.txt"
+        seq_file.write_text(" ".join(names) + "\n")
+        how = "-seqf strand.txt (" + " ".join(names) + ")"
+    out = scratch / "out.itp"
+    if out.exists():
+        out.unlink()
+    gen_itp.gen_params(name="DNA", outpath=out, inpath=[], lib=["parmbsc1"], seq=seq, seq_file=seq_file, dsdna=True)
+    if not out.exists():
+        return n >= 2, f"gen_params {how} -dsdna returned without writing the .itp", "c19-gen-params-route"
+    obs, why = read_itp_residue_graph(out)
+    exp = spec_dsdna(names, spec_linear(names)[1])
+    bad = why or differ(obs, *exp)
+    if bad:
+        return n >= 2, f"gen_params -lib parmbsc1 {how} -dsdna, residue graph of the written .itp: {bad}", "c19-gen-params-route"
+    return n >= 2, None, None
+
+
 def c19_eval(job, scratch):
     """-> (nontrivial, None or text, key)"""
+    if job[0] == "gen_params":
+        return c19_route_eval(job, scratch)
     gen_dna = load("polyply.src.gen_dna")
     mm = load("polyply.src.meta_molecule")
     import networkx as nx
@@ -792,7 +881,7 @@ def c19_worker(arg):
         try:
             out.append(c19_eval(job, scratch))
         except Exception as exc:                     # noqa: BLE001
-            n = len(job[2]) if job[0] == "strand" else len(job[1])
+            n = len(job[2]) if job[0] in ("strand", "gen_params") else len(job[1])
             file_form = job[0] == "strand" and job[1] in ("fasta", "ig", "ig-circular")
             key = "F7-single-residue-sequence" if (n == 1 and file_form) else "c19-raised"
             out.append((n >= 2, f"raised {type(exc).__name__}: {exc}", key))
@@ -806,9 +895,15 @@ def run_c19(ctx, res):
     root = tempfile.mkdtemp(dir="/var/tmp", prefix="bseq-c19-")
     try:
         outs = _pool_run(c19_worker, jobs, root, 300)
+        # the program path: few, slower worlds (force-field library load, mapping, links, itp writing) -- one per task
+        route_jobs = c19_route_jobs(ctx)
+        outs += _pool_run(c19_worker, route_jobs, root, 1)
+        jobs += route_jobs
     finally:
         shutil.rmtree(root, ignore_errors=True)
     _collect(res, "c19-dsdna", ((job, nt, bad, key) for job, (nt, bad, key) in zip(jobs, outs)))
+    route_names = sorted({j[1] for j in route_jobs})
+    route_strands = sorted({j[2] for j in route_jobs}, key=lambda t: (len(t), t))
     n_lin = sum(1 for j in jobs if j[0] == "strand" and j[1] in ("fasta", "ig", "seq"))
     n_circ = sum(1 for j in jobs if j[0] == "strand" and j[1] == "ig-circular")
     n_unknown = sum(1 for j in jobs if j[0] == "unknown")
@@ -818,13 +913,21 @@ def run_c19(ctx, res):
                  f"2..{max_len} as a .json residue graph whose every edge carries its own label = {n_lab}; every circular sequence "
                  f"of length 3..{max_len} through the .ig parser = {n_circ}; each single nucleotide by name in each terminal role (12); on each: "
                  "complement_dsDNA, the full statement as postcondition, and a second completion of the added strand taken on its own; "
-                 f"unknown names: every sequence of length 1..{4 if ctx.thorough else 3} x every position x 5 non-DNA names = {n_unknown}, must raise")
-    res.rule = "world = one strand (sequence x way of producing it); non-trivial iff n >= 2"
+                 f"unknown names: every sequence of length 1..{4 if ctx.thorough else 3} x every position x 5 non-DNA names = {n_unknown}, must raise.  "
+                 f"PROGRAM PATH (fixed list, not exhaustive): gen_params(lib=['parmbsc1'], dsdna=True) on the strands {route_strands}"
+                 + (" (the last three seeded-random)" if ctx.thorough else "") +
+                 f" x input routes {route_names} (seq = -seq DX5/DX/DX3 tokens, fasta/ig = one-letter file, txt = explicit residue names) = "
+                 f"{len(route_jobs)} runs; the written .itp is read back (atoms: resid/resname; bonds between atoms of different residues) and must "
+                 "state 2n residues, 1..n as given, n+k the complement of n+1-k with 5'/3' exchanged, each strand bonded in order, no bond between the strands")
+    res.rule = "world = one strand (sequence x way of producing it); non-trivial iff n >= 2; program-path world = one gen_params run (strand x input route)"
     res.exhaustive = True
     res.assumptions += [
         "residue naming D<base>[5|3] and the circular edge label linktype=circle are conventions of the input parsers (C12), not of the C19 statement",
         "'rejected' is read as: an exception of any type is raised",
         "the second completion is run on the added strand rebuilt as its own MetaMolecule (same names, resids from 1, same edge labels)",
+        "program path: the residue graph is read from the .itp with a reader written here (atoms columns nr/type/resnr/residue; an edge = a [ bonds ] "
+        "line between atoms of different residues); edge labels are not observable in an .itp; the parmbsc1 library shipped with the tree is used as is; "
+        "circular strands and .json input are not run through gen_params",
     ]
 
 
